@@ -321,13 +321,15 @@ void remove_peer_from_routing_table(const struct peer *p,
 	for (unsigned int i = 0; i < table_size_route_table; ++i) {
 		struct hashtable_string *entry = &(table[i]);
 		if (entry->key != (char *)HASHTABLE_INVALIDENTRY) {
+			const struct routing_request *request = entry->value.vals[0];
+			if (request->requesting_peer != peer_to_remove) {
+				/* Requests of other peers stay routed. */
+				continue;
+			}
 			struct value_route_table val;
 			int ret = HASHTABLE_REMOVE(route_table, p->routing_table, entry->key, &val);
 			if (ret == HASHTABLE_SUCCESS) {
-				struct routing_request *request = val.vals[0];
-				if (likely(request->requesting_peer == peer_to_remove)) {
-					clear_routing_entry(&val);
-				}
+				clear_routing_entry(&val);
 			}
 		}
 	}
